@@ -947,6 +947,6 @@ func init() {
 		New:      func() any { return &C18Case{} },
 		Check:    func(c any) Result { return checkC18(c.(*C18Case)) },
 		Quick:    5000,
-		Thorough: 25000,
+		Thorough: 300000,
 	})
 }
